@@ -65,6 +65,9 @@ FIXED = [
     ('FX-string-escapes', 'C03', '08852f6',
      "string literals with backslash-space, backslash-X, backslash-U or a "
      "backslash before a non-ASCII character rejected as unterminated"),
+    ('FX-autosemi-in-message', 'C12', '8043159',
+     'syntax-error message quoted the synthetic semicolon as "\';\' at 1:0" '
+     '(witness "a break\\n")'),
     ('FX-keyword-property-c01', 'C01', '9979704',
      'pretty output "({\\n  p: a.return\\n})" rejected on re-parse'),
 ]
